@@ -397,15 +397,29 @@ class EngineRun:
             cur[i] = (cur[i][0], " " * (len(cur[i][1]) - len(cur[i][1].lstrip())) + text)
         elif op == "insert-blank":
             cur.insert(len(cur) - 1, (new_id, ""))
+        elif op == "append-in-macro":
+            # a new last line in the body of the first macro definition
+            heads = [i for i, (_, c) in enumerate(cur) if c.strip().startswith("Macro:")]
+            if not heads:
+                return "rejected"
+            h = heads[0]
+            ind = len(cur[h][1]) - len(cur[h][1].lstrip())
+            end = h + 1
+            while end < len(cur) and (not cur[end][1].strip() or len(cur[end][1]) - len(cur[end][1].lstrip()) > ind):
+                end += 1
+            while end > h + 1 and not cur[end - 1][1].strip():
+                end -= 1
+            cur.insert(end, (new_id, " " * (ind + 4) + text))
+            return self.set_method_ids(cur, 0, op=op, in_macro=cur[h][0])
         return self.set_method_ids(cur, 0, op=op)
 
-    def set_method_ids(self, id_lines: list[tuple[str, str]], version: int = 0, op: str = "set"):
+    def set_method_ids(self, id_lines: list[tuple[str, str]], version: int = 0, op: str = "set", in_macro: str = ""):
         m = self.Mdl.Method(lines=[self.Mdl.MethodLine(id=i, content=c) for i, c in id_lines], version=version)
         old = dict(getattr(self, "cur_lines", []))
         changed = sorted(i for i, c in id_lines if i in old and old[i] != c)
         removed = sorted(i for i in old if i not in dict(id_lines))
         res = self._request("edit", lambda: self.engine.set_method(m), lines=[list(x) for x in id_lines], op=op,
-                            changed=changed, removed=removed)
+                            changed=changed, removed=removed, inMacro=in_macro)
         if res != "rejected":
             self.cur_lines = list(id_lines)
             self.next_line = max(getattr(self, "next_line", 0), len(id_lines))
